@@ -400,6 +400,19 @@ func optionListReuse(c *Case) (same bool, ok bool) {
 	}()
 	a, _ := json.Marshal(serLayout(autog.Layout(cloneEdges(c.Edges), shared...)))
 	_ = autog.Layout(cloneEdges(c.Edges), shared[:len(shared)-1]...)
+	// ... and a call with quite different options (another positioner and router, helper nodes in the output toggled, another fixed
+	// size, other spacings): nothing of it may stick
+	other := cfg
+	other.P4 = (cfg.P4 + 1) % 3
+	other.P5 = []int{1, 2, 0, 0, 0}[cfg.P5%5]
+	other.Virt = !cfg.Virt
+	other.Sizes = nil
+	other.Fixed = []string{fs(7), fs(9)}
+	other.NS, other.LS = fs(3), fs(5)
+	func() {
+		defer func() { _ = recover() }()
+		_ = autog.Layout(cloneEdges(c.Edges), buildOptions(&other, nil, nil)...)
+	}()
 	b, _ := json.Marshal(serLayout(autog.Layout(cloneEdges(c.Edges), shared...)))
 	return string(a) == string(b), true
 }
